@@ -451,6 +451,20 @@ func (fr *frame) symBoolBinop(op token.Token, x, y value) value {
 func (fr *frame) symBinop(op token.Token, t types.Type, x, y value) value {
 	switch {
 	case isStrValue(x) && isStrValue(y):
+		if op == token.LSS || op == token.GTR || op == token.LEQ || op == token.GEQ {
+			if ox, oy := fr.run().digestOrd(x), fr.run().digestOrd(y); ox != nil && oy != nil {
+				switch op {
+				case token.LSS:
+					return mkBool(smt.Lt(ox, oy))
+				case token.GTR:
+					return mkBool(smt.Lt(oy, ox))
+				case token.LEQ:
+					return mkBool(smt.Le(ox, oy))
+				default:
+					return mkBool(smt.Le(oy, ox))
+				}
+			}
+		}
 		return symStringBinop(op, x, y)
 	case isIntValue(x) && isIntValue(y):
 		return fr.symIntBinop(op, x, y)
